@@ -275,6 +275,100 @@ def run_malformed(ctx: Ctx) -> None:
                 ctx.failures.append(Failure('update-class', canon, {'shape': shape, 'text': text, 'session': words, 'decoded': out}, f'a text the grammar should refuse produced an UPDATE the RFC decoder rejects: {out}'))
 
 
+def run_shared(ctx: Ctx) -> None:
+    """State shared between neighbours through the route / attribute objects: ONE Route parsed once goes through
+    the real `Configuration.announce_route` for 2-3 neighbours with different local addresses, AS numbers and
+    session shapes, one after the other, then again for the first one. Every UPDATE is judged against the request
+    for THAT session (oracle) and compared with the model for THAT session; serving a neighbour again must give
+    the same bytes."""
+    rng = ctx.rng
+    n = 300 if ctx.tier == 'quick' else 10000
+    cases = []
+    d = common.VERIF / 'corpus' / PROP
+    for f in sorted(d.glob('*.json')) if d.exists() else []:
+        cc = json.loads(f.read_text())
+        if cc.get('shared'):
+            cases.append(([dict(encoderig.default_shape(), **s) for s in cc['shapes']], cc['req'], cc['order']))
+    for _ in range(n):
+        k = rng.choice([2, 2, 3])
+        las = rng.sample([0, 1, 2, 3], k)
+        shapes = []
+        for la in las:
+            s = gen_shape(rng)
+            if rng.random() < 0.8:
+                s['v6'] = 0
+            s['la'] = la
+            shapes.append(s)
+        req = gen_req(rng, shapes[0], mismatch=0.0)
+        if rng.random() < 0.65:
+            req['nh'] = ['self']
+            if encoderig.req_afi(req) == 2 and rng.random() < 0.85:  # an IPv6 route needs IPv6 sessions to resolve self
+                for s in shapes:
+                    s['v6'] = 1
+        order = list(range(k)) + [0] + ([rng.randrange(k)] if rng.random() < 0.3 else [])
+        cases.append((shapes, req, order))
+    entries = []  # (case index, position, shape, sess, outcome)
+    for ci, (shapes, req, order) in enumerate(cases):
+        if ctx.time_left() < 8:
+            ctx.notes.append('shared-route stream cut by the budget')
+            break
+        sesss = [Session.get(s) for s in shapes]
+        outs = encoderig.impl_encode_shared(sesss, req, order)
+        ctx.evaluations += 1
+        ctx.count('shared:neighbours=%d' % len(shapes))
+        ctx.count('shared:nexthop-' + req['nh'][0])
+        if isinstance(outs, tuple):
+            ctx.count('shared:refused')
+            continue
+        for pos, (i, o) in enumerate(zip(order, outs)):
+            entries.append((ci, pos, shapes[i], sesss[i], o))
+        ctx.nontrivial(['shared', [s.words for s in sesss], encoderig.req_model(req), order])
+    if not entries:
+        return
+    mo = common.run_driver('drv_wireexa', [f'wireexa encode {e[3].words} {encoderig.req_model(cases[e[0]][1])}' for e in entries])
+    dec_idx = [j for j, e in enumerate(entries) if e[4][0] == 'sent']
+    do = common.run_driver('drv_wire', [f'wire decode {encoderig.wire_params(entries[j][3].words)} {entries[j][4][1] or "-"}' for j in dec_idx])
+    reports: dict = dict(zip(dec_idx, do))
+    first_of: dict = {}
+    seen: set = set()
+    for j, (ci, pos, shape, sess, o) in enumerate(entries):
+        shapes, req, order = cases[ci]
+        ctx.count('shared:outcome-' + o[0])
+        replay = {'shared': True, 'shapes': shapes, 'req': req, 'order': order, 'position': pos, 'text': encoderig.req_text(req), 'session': sess.words, 'sent': o}
+        # a neighbour served again gets the same bytes
+        key = (ci, order[pos])
+        if key in first_of and first_of[key] != o:
+            canon = ['shared-route-state', 'order-dependent', 'nh-' + req['nh'][0]]
+            if json.dumps(canon) not in seen:
+                seen.add(json.dumps(canon))
+                ctx.failures.append(Failure('update-class', canon, replay, f'the same neighbour served again with the same Route object got {o} after {first_of[key]}'))
+        first_of.setdefault(key, o)
+        model = encoderig.model_outcome(mo[j])
+        if o[0] not in ('refused', 'multi') and not encoderig.same_outcome(o, model):
+            ctx.count('disagreement')
+            if len(ctx.disagreements) < 12:
+                ctx.disagreements.append(Disagreement('shared-route', replay, model, o))
+        if not realistic(shape):
+            continue
+        v = encoderig.judge(req, shape, sess.words, o, reports.get(j))
+        if v is None:
+            continue
+        ctx.count('oracle-fail:' + v[0])
+        # alone (fresh parse, this session only) the same request is fine: the failure comes from what the
+        # neighbours served before left in the shared objects
+        alone = one(shape, req)
+        if judge_row(alone) is None:
+            canon = ['shared-route-state', v[0], 'nh-' + req['nh'][0], 'position-%d' % min(pos, 1)]
+        else:
+            canon = canon_of(v[0], req, shape, sess.words)
+        if json.dumps(canon) in seen:
+            continue
+        seen.add(json.dumps(canon))
+        if not any(f.canon == canon for f in ctx.failures):
+            replay['decoded'] = reports.get(j)
+            ctx.failures.append(Failure('update-class', canon, replay, v[1] + ' (one Route object announced to several neighbours in turn)'))
+
+
 def huge_req(rng, shape: dict) -> dict:
     """Attributes sized around the 4096 / 65535 limit."""
     req = gen_req(rng, shape, mismatch=0.0)
@@ -381,6 +475,8 @@ def load_corpus() -> list[tuple[dict, dict, str]]:
     if d.exists():
         for f in sorted(d.glob('*.json')):
             c = json.loads(f.read_text())
+            if c.get('shared'):
+                continue
             shape = encoderig.default_shape()
             shape.update(c.get('shape', {}))
             out.append((shape, c['req'], 'corpus:' + f.stem))
@@ -407,7 +503,7 @@ def run(ctx: Ctx) -> None:
     seen_dis = 0
     batch = 500
     for start in range(0, len(cases), batch):
-        if ctx.time_left() < 5:
+        if ctx.time_left() < 25:
             ctx.notes.append(f'budget reached after {ctx.evaluations} cases')
             break
         rows = evaluate(cases[start : start + batch]) if ctx.driver_ok else []
@@ -472,6 +568,7 @@ def run(ctx: Ctx) -> None:
                     )
                 )
     if ctx.driver_ok:
+        run_shared(ctx)
         run_malformed(ctx)
         run_cli(ctx)
 
@@ -519,6 +616,20 @@ def run_cli(ctx: Ctx) -> None:
 def replay(path: str) -> int:
     data = json.loads(open(path).read())
     rp = data.get('replay', data)
+    if rp.get('shared'):
+        sesss = [Session.get(dict(encoderig.default_shape(), **s)) for s in rp['shapes']]
+        outs = encoderig.impl_encode_shared(sesss, rp['req'], rp['order'])
+        ok = True
+        print('text    :', encoderig.req_text(rp['req']))
+        for pos, (i, o) in enumerate(zip(rp['order'], outs)):
+            shape = dict(encoderig.default_shape(), **rp['shapes'][i])
+            rep = ask('drv_wire', f'wire decode {encoderig.wire_params(sesss[i].words)} {o[1] or "-"}') if o[0] == 'sent' else None
+            v = encoderig.judge(rp['req'], shape, sesss[i].words, o, rep)
+            first = [outs[q] for q in range(pos) if rp['order'][q] == i]
+            same = not first or first[0] == o
+            print(f'neighbour {i} ({sesss[i].words.split(" ")[7]}): {o[0]} decoded: {rep} holds: {v is None and same}', '' if v is None else v)
+            ok = ok and v is None and same
+        return 0 if ok else 1
     shape = encoderig.default_shape()
     shape.update(rp.get('shape', {}))
     r = one(shape, rp['req'])
